@@ -32,7 +32,8 @@ CONSTANTS ZoneKinds,   \* how the target zone hangs off its signed parent
 \*  "insecure"    no DS at the parent, proven by a signed NSEC; zone unsigned
 \*  "optout"      no DS, parent uses NSEC3 opt-out; zone unsigned
 \*  "nsec3"       signed, denial by NSEC3
-(* query kinds: "a" | "cname" | "wild" | "nodata" | "nx" | "dname" *)
+(* query kinds: "a" | "cname" | "wild" | "nodata" | "nx" | "dname" | "ent" (an empty non-terminal below a
+   wildcard's parent: it exists, the truth is NODATA, the wildcard does not apply to it) *)
 (* tamper positions: "referral" (parent's DS / no-DS proof), "dnskey", "answer" *)
 (* tamper kinds: see Breaks below *)
 
@@ -46,8 +47,8 @@ VARIABLES zone, qk, flags, tamper, anchor,   \* the case (chosen at Init)
 vars == <<zone, qk, flags, tamper, anchor, pc, dsState, keyState, ansState, reply>>
 
 ZoneSigned == zone \in {"signed", "signed-same", "nsec3"}
-Negative == qk \in {"nodata", "nx"}
-NeedsProof == qk \in {"nodata", "nx", "wild"}     \* the answer rests on NSEC/NSEC3 records
+Negative == qk \in {"nodata", "nx", "ent"}
+NeedsProof == qk \in {"nodata", "nx", "wild", "ent"}     \* the answer rests on NSEC/NSEC3 records
 
 \* "rootref" is the ROOT's referral for the (always signed) parent of the target zone: the one
 \* delegation whose DS is authenticated by the trust anchors directly instead of by a parent DS
@@ -79,6 +80,11 @@ K(pos) == tamper[pos]        \* the tampering applied at a position ("none" = un
                signer zone are never validated and must not count as proof: incomplete denial
    roguesig  : answer data altered and re-signed, signer name = the zone, with the attacker's key
                -> verifies only if that key was accepted into the zone's key set (roguekey)
+   wildrep   : (question kind "ent" only) the honest NODATA is replaced by the zone's GENUINE wildcard RRset under
+               the asked name, with the wildcard's genuine signature (labels field one short), "proved" by the
+               genuine NSEC whose interval spans the asked name - its next name lies BELOW the asked name, which
+               therefore exists as an empty non-terminal: the interval denies nothing (RFC 4592 2.2.2, RFC 4035
+               5.3.4) and the expansion is not what the signer published
 *)
 BreaksSig(k) == k \in {"data", "sigbytes", "signer", "labels", "expired", "notyet"}
 
@@ -132,6 +138,7 @@ Answer ==
          "insecure"                       \* foreign answer records are dropped, not fatal (C07's filter)
        ELSE
          (IF BreaksSig(k) \/ k \in {"strip", "inject", "roguesig", "fakedname", "foreigndeny"} THEN "bogus"
+          ELSE IF k = "wildrep" /\ qk = "ent" THEN "bogus"
           ELSE IF NeedsProof /\ k \in {"dropproof", "foreignproof"} THEN "bogus"
           ELSE "secure")
   /\ pc' = "reply"
@@ -170,6 +177,7 @@ EffectiveAt(pos) ==
     [] pos = "referral" /\ k \in {"dropds", "swapds"} -> ZoneSigned
     [] pos = "dnskey" -> ZoneSigned
     [] pos = "answer" /\ k \in {"dropproof", "foreignproof"} -> ZoneSigned /\ NeedsProof
+    [] pos = "answer" /\ k = "wildrep" -> ZoneSigned /\ qk = "ent"    \* there is nothing to replay over any other name
     [] pos = "answer" /\ k = "inject" -> ZoneSigned   \* in an unsigned zone the foreign RRset is filtered (bailiwick), the rest is served
     [] pos = "answer" -> ZoneSigned          \* signature / data tampering in an unsigned zone is out of scope
     [] OTHER -> TRUE
